@@ -111,7 +111,7 @@ def evaluate__parenthesized_expression(self: XPathToken, context: ta.ContextType
             if any(x.symbol == '?' and not x for x in tokens):
                 func.check_arguments_number(len(tokens))
                 func = copy(func)
-                func[:] = tokens
+                func._items = list(tokens)  # not the list shared with the copied item
                 func.to_partial_function()
                 return func
 
